@@ -159,6 +159,15 @@ def gen_package(rng: random.Random, name: str) -> dict[str, str]:
     for m in mods:
         for nm, kind in rng.sample(exported[m], min(len(exported[m]), 2)):
             init += f"from {name}.{m} import {nm}\n"
+    # sub-modules imported by the package itself, under their own and under other names
+    for m in mods:
+        r = rng.random()
+        if r < 0.2:
+            init += f"from . import {m} as {m}_alias\n"
+        elif r < 0.35:
+            init += f"import {name}.{m} as {m}_mod\n"
+        elif r < 0.5:
+            init += f"from {name} import {m}\n"
     init += "top_value = 1\n"
     files[f"{name}/__init__.py"] = init
     return files
